@@ -15,11 +15,13 @@ Module W := LinkedListQueueWrapGen.
 
 (* the wrapped list, as the model has it: a sequence *)
 Definition I : W.list_iface := W.mk_list_iface (list Z)
-  (fun l vs => (sll_add vs l, tt))          (* Add(values...) *)
+  (fun l vs => (sll_add vs l, tt))         (* Add(values...) *)
+  (fun l vs => (sll_add vs l, tt))         (* Append(values...) = Add *)
   (fun _ => ([], tt))                      (* Clear() *)
   (fun l => zlen l =? 0)                   (* Empty() *)
-  (fun l i => opt_pair (sll_get i l))       (* Get(i) *)
-  (fun l i => (sll_remove i l, tt))         (* Remove(i) *)
+  (fun l i => opt_pair (sll_get i l))      (* Get(i) *)
+  (fun l vs => (sll_prepend vs l, tt))     (* Prepend(values...) *)
+  (fun l i => (sll_remove i l, tt))        (* Remove(i) *)
   (fun l => zlen l)                        (* Size() *)
   (fun l => l).                            (* Values() *)
 
